@@ -49,7 +49,10 @@ def generate(rng, n, tier):
             elif r < 0.8:
                 tail.append(G.gen_limits(rng))
             elif r < 0.9:
-                tail.append(dict(op="SetPenalty", pen=G.gen_pen(rng)))
+                pen = G.gen_pen(rng)
+                if pen["kind"] == "slin" and any(o["op"] == "SetObjective" and o["cost"]["kind"] != "quad" for o in ops):
+                    pen["kind"] = "lin"          # a signed penalty only next to costs that dominate it (see solvergen.gen_script)
+                tail.append(dict(op="SetPenalty", pen=pen))
             else:
                 tail.append(dict(op="Solve", cb=False))
                 tail.insert(0, dict(op="SetLimits", g=rng.choice([3, 5]), e=None, new=True))
